@@ -78,7 +78,10 @@ FifoOK(r) ==
         /\ r.fifo.events = r.direct.events
         /\ r.fifo.logins = [i \in 1..Len(r.direct.logins) |-> [pid |-> r.direct.logins[i].pid, cred |-> r.direct.logins[i].cred]]
 
+\* C07, audit half: a record line parses to the same audit message with and without its newline
+\* (records of kind "auditnl", harness/cmd/auditnl)
 Checks(r) ==
+    IF "k" \in DOMAIN r /\ r.k = "auditnl" THEN { <<"AuditNewline", r.same>> } ELSE
     LET o == r.direct
         exact == r.fam \in {"grammar"}
     IN { <<"Universal", Universal(o, r.line)>>,
